@@ -67,7 +67,7 @@ diamond4 = shape_of([[], [0], [0], [1, 2]])
 for k, sh in enumerate(all_shapes(3)):
     send_q.append([3, sh, masks_of([(2, 2, 1), (4, 1, 2)][k % 2]), 0, -1])
 # 3 flavors, <= 4 methods, 4 sampled orders each
-q3 = [(4, 4, 4), (9, 8, 0), (3, 4, 8), (8, 8, 8)]
+q3 = [(4, 4, 4), (3, 4, 8), (8, 8, 8)]
 for sh in all_shapes(3):
     for ms in q3:
         send_q.append([3, sh, masks_of(ms), 0, 0])
@@ -85,6 +85,8 @@ for sh in (wide4, chain4, diamond4):
         send_q.append([4, sh, masks_of(ms), 0, 0])
 
 send_t += send_q
+for sh in all_shapes(3):
+    send_t.append([3, sh, masks_of((9, 8, 0)), 0, 0])
 for sh in all_shapes(2):
     for ms in [(7, 0), (0, 11)]:
         send_t.append([2, sh, masks_of(ms), 0, -1])
@@ -169,7 +171,7 @@ for sh in rnd.sample(sh5, 100):
     d, o = rand_decl_opts(5)
     vars_t.append([5, sh, d, o, rnd.randrange(50)])
 
-common = {"property": "C11", "pkg": "pkg/flavors", "max_depth": 400, "max_steps": 400000000, "solver_timeout_ms": 10000}
+common = {"property": "C11", "pkg": "pkg/flavors", "max_depth": 400, "max_steps": 400000000, "solver_timeout_ms": 60000}
 vals = ("Symbolic: the default of every flavor's own instance variable, the constant added by every primary and by "
         "every whopper (value of send = first primary's variable + constant + constants of the whoppers that ran), all "
         "fixnums with |v| < 2^20 (no overflow of the sums). Concrete per case: the DAG (shape), which daemons each flavor "
@@ -190,7 +192,7 @@ specs = [
     dict(common, id="C11.send", entry="VerifC11Send", cases={"quick": send_q, "thorough": send_t}, reach=["sent"],
          carves=["C11-vanilla-before-components", "C11-insert-alias", "C11-insert-position", "C11-whopper-skip"],
          note="Real defflavor/defmethod/defwhopper/continue-whopper/make-instance/send evaluated through the registry for a DAG "
-              "of n flavors. Quick: the 10 shapes of 3 flavors x (one 3-method assignment x EVERY order + 4 assignments of <= 4 "
+              "of n flavors. Quick: the 10 shapes of 3 flavors x (one 3-method assignment x EVERY order + 3 assignments of <= 4 "
               "methods x 4 sampled orders), the 7 connected 3-flavor shapes x 2 assignments on :init x every order, both 2-flavor "
               "shapes x 2 assignments x 2 messages x every order, 3 shapes of 4 flavors (wide, chain, diamond) x 2 assignments x 4 "
               "sampled orders. Thorough adds: 7 connected 3-flavor shapes x (24 single-daemon assignments + 2 four-method "
